@@ -184,6 +184,8 @@ for k in ["pawn", "knight", "bishop", "rook", "queen", "king", "none"]:
 for k in ["pawn", "knight", "bishop", "rook", "queen", "king"]:
     ob("C12", "O-C12.status." + k, MG + "c12_status_" + k, "status() is one of the two rows of the Won/Drawn/Ongoing table for (in check, clock >= 100) and is the has-a-legal-move row whenever a legal %s move exists (loop-invariant VCs: no processed square has a legal move)" % k,
        ["Board::status", "Board::generate_moves", "Board::generate_moves_for"] + GENFNS[1:], timeout=3600, cut=True, flags=BF, expect_covers=0)
+ob("C12", "O-C12.status.table", MG + "c12_status_table", "status() == Won/Drawn/Ongoing table applied to (answer of exactly one call of generate_moves, checkers non-empty, clock >= 100); generate_moves through a recording contract stub",
+   ["Board::status"], timeout=900)
 ob("C12", "O-C12.status.double-check", MG + "c12_status_double_check", "in double check (only king steps can be legal: proved for a universally quantified move) status() == table(the king has a safe destination, in check, clock) - both directions, exact",
    ["Board::status", "Board::generate_moves_for", "Board::add_king_legals", "Board::king_safe_on"], timeout=3600, cut=True, flags=BF)
 # ------------------------------------------------------------------------------------------- C15
@@ -273,7 +275,8 @@ LEMMAS = {
 LEMMAS["C17"] = ["L-batch: from O-C17.iter.step by induction on the remaining length: iterating a batch yields exactly the moves m with batch_has(m), each exactly once, destinations ascending, promotions in the order N,B,R,Q"]
 LEMMAS["C05"] = ["L-slider (per back end): for all sq, occ: get_X_moves(sq, occ) = T[index(sq, occ)] = T[index(sq, occ & mask)] (lemma a) = spec(sq, occ & mask) (finite case analysis c, every subset of mask) = spec(sq, occ) (lemma b)",
                  "L-const: const variants == spec (O-C05.slow.*, all 64 squares) hence fast lookups == const variants in both back ends"]
-LEMMAS["C12"] = ["L-exists: generate_moves(|_| true) returns true iff a legal move exists. (<=) machine-checked here (O-C12.status.*: if a legal move exists the has-move row is returned). (=>) from O-C01/O-C16: the listener is only called with non-empty batches all of whose members are legal, and the return value is true only if the listener was called"]
+LEMMAS["C12"] = ["O-C12.status.table: status() == table(g, checkers non-empty, clock) where g is the answer of its single call generate_moves(|_| true)",
+                 "L-exists: g is true iff a legal move exists. (<=) machine-checked (O-C12.status.*: if a legal move exists the has-move row is returned). (=>) from O-C01/O-C16: the listener is only called with non-empty batches all of whose members are legal, and the return value is true only if the listener was called. In double check both directions are machine-checked exactly (O-C12.status.double-check)"]
 LEMMAS["C13"] = ["reflexive/symmetric/transitive: spec_same_position is equality of the tuple (placement, side, rights, effective EP file), a function of one board"]
 LEMMAS["C15"] = ["with O-C04 (is_legal == legality) and O-C02/C03/C10 (play_unchecked contract): try_play succeeds exactly on legal moves and then yields the rule-prescribed successor"]
 LEMMAS["C11"] = ["L-C11: by C10 (hash == XOR of KEY over the features present, writer contracts + feature accounting) hash(a) ^ hash(b) = XOR of KEY over the symmetric difference of the two feature sets; the feature -> table-entry map is injective (distinct indices of the table, O-C10.writer.* pin the indexing); for 1..4 differing features the XOR is non-zero by indep4 of the dumped table"]
